@@ -6,3 +6,7 @@ package rib
 // tag, in which case it reports linearisation-point events to an installed
 // tracer (see verif_on.go).
 func verifTrace(string, ...any) {}
+
+// verifGate is a no-op unless the package is built with the "verif" build tag,
+// in which case the harness may block it to force an interleaving.
+func verifGate(string, uint64) {}
